@@ -65,8 +65,12 @@ def _c19(tier, replay, seed, work, t0):
         cases = G.parse_cases(gen["out"])
         if len(cases) < 1000:
             raise C.ToolError("FrameGen produced too few cases")
+        def omoves(n):
+            mv = [rng.choice(["f", "b", "t", "f", "b", "n1", "n2"]) for _ in range(n)]
+            return mv + (["l"] if rng.random() < 0.35 else [])      # last(): by value, ends the walk
+
         for c in cases:
-            c["owned"] = [rng.choice("fbt") for _ in range(rng.randint(0, 6))]
+            c["owned"] = omoves(rng.randint(0, 6))
         # long random operation sequences on large frames (model replay in TLC is still the judge)
         keys = [[97], [65], [98], [97, 98], [102, 105, 108, 101]]
         for _ in range(60 if quick else 1500):
@@ -78,8 +82,8 @@ def _c19(tier, replay, seed, work, t0):
             ops = []
             for _ in range(rng.randint(5, 40)):
                 o = rng.choice(["find", "get", "get", "get", "take_binary", "fields_len", "is_empty", "has_binary", "binary", "iter"])
-                ops.append({"op": o, "k": rng.choice(keys) if o in ("find", "get") else [], "moves": [rng.choice("fb") for _ in range(rng.randint(1, n + 2))] if o == "iter" else []})
-            cases.append({"frame": {"fields": fields, "bin": rng.choice([[], [[1, 2, 3, 10]]])}, "ops": ops, "owned": [rng.choice("fbt") for _ in range(rng.randint(0, n + 2))]})
+                ops.append({"op": o, "k": rng.choice(keys) if o in ("find", "get") else [], "moves": ([rng.choice(["f", "b", "f", "b", "n1", "n2"]) for _ in range(rng.randint(0, n + 2))] + (["l"] if rng.random() < 0.4 else ["f"])) if o == "iter" else []})
+            cases.append({"frame": {"fields": fields, "bin": rng.choice([[], [[1, 2, 3, 10]]])}, "ops": ops, "owned": omoves(rng.randint(0, n + 2))})
         # responses: frames then error, next / next_back / size_hint interleavings
         for n in range(0, 4):
             for err in (False, True):
